@@ -12,6 +12,7 @@ import (
 	"unsafe"
 
 	"github.com/robfig/soy"
+	"github.com/robfig/soy/data"
 	"github.com/robfig/soy/soyhtml"
 	"github.com/robfig/soy/template"
 
@@ -24,6 +25,10 @@ type compiled struct {
 	reg  *template.Registry
 }
 
+// globalsInTwoMaps, when set, are the globals of the next compilations as two maps of the application
+// (set and cleared by the check that owns them).
+var globalsInTwoMaps *[2]data.Map
+
 // compileBundle compiles sources with the implementation under test.
 func compileBundle(names, srcs []string, globals map[string]ref.Value) (c *compiled, err error, panicked interface{}) {
 	panicked = catch(func() {
@@ -31,7 +36,10 @@ func compileBundle(names, srcs []string, globals map[string]ref.Value) (c *compi
 		for i := range names {
 			b.AddTemplateString(names[i], srcs[i])
 		}
-		if len(globals) > 0 {
+		if len(globals) > 0 && globalsInTwoMaps != nil {
+			// the application's own maps, kept by it and given again at every compilation
+			b.AddGlobalsMap(globalsInTwoMaps[0]).AddGlobalsMap(globalsInTwoMaps[1])
+		} else if len(globals) > 0 {
 			if len(srcs[0])%2 == 0 && utf8.ValidString(fmt.Sprint(globals)) {
 				// through the globals file syntax (NAME = literal) and its parser (a file is text: values
 				// that are not valid UTF-8 can only be given through the map)
